@@ -340,7 +340,45 @@ def famB_alive(rng, tier, kinds=('001', '011')):
 
 def famB_panic(rng, tier, kinds=('000', '010', '001', '011', '100', '110')):
     progs = famB_profile(rng, tier, kinds=kinds, fail_rate=0.05, handler_rate=0.3, nmax=3, dmax=3, reps=2, boom_rate=0.25)
+    for p in progs:
+        if p.kind in ('001', '011'):
+            add_waiting_sibling(rng, p)
     return progs
+
+
+def add_waiting_sibling(rng, p):
+    """thread kinds: a LATER-numbered sibling of the panicking branch, in the same step, ends its step in a callback that waits until the
+    harness has seen the macro expression return or panic - the caller must not wait for it (C18: never left blocked)"""
+    text = p.render()
+    boom = [(i, p.table.where[i]) for (toks, i, rule, cap) in p.table.ops if rule in ('KPanic', 'KPanicEval') and i in p.table.where
+            and re.search(r'boom_\w+(?: :: < [^(]*>)? \( %d[ ,)]' % i, text)]
+    if not boom:
+        return
+    (bid, (bb, bk)) = boom[0]
+    cands = [j for j, br in enumerate(p.branches) if j > bb and br.depth() > bk]
+    if not cands or bb < 0:
+        return
+    j = rng.choice(cands)
+    br = p.branches[j]
+    # index just before the first action of step bk+1 of branch j (or the end)
+    k, pos = 0, len(br.acts)
+    for idx, a in enumerate(br.acts):
+        if a.deferred:
+            k += 1
+            if k == bk + 1:
+                pos = idx
+                break
+    # do not put it inside an open wrapper
+    opened = 0
+    for a in br.acts[:pos]:
+        opened += 1 if a.wrap else (-1 if a.unwrap else 0)
+        if a.deferred:
+            opened = 1 if a.wrap else 0
+    if opened > 0:
+        return
+    p.table.cur = (j, bk)
+    txt = p.table.new(lambda i: (['wait_rel', '(', str(i), ')'], 'KId', False))
+    br.acts.insert(pos, gen.Act('Then', [txt]))
 
 
 ALIAS = {'001': 'spawn', '011': 'try_spawn', '101': 'async_spawn', '111': 'try_async_spawn'}
@@ -538,7 +576,10 @@ def proj_barrier(d, exp, raw=None):
 
 
 def proj_abort(d, exp):
-    """C06: nothing of a later step than the spec's last step is evaluated; all of the failing step is"""
+    """C06/C18: nothing of a later step than the spec's last step is evaluated; all of the failing step is; nobody was left waiting"""
+    for e in d['observed'][1:]:
+        if 'TIMEOUT' in e:
+            return 'the caller was left blocked: %s waited for the macro expression to return or panic until it timed out' % e
     r = proj_result(d, exp)
     ks = [k for ((b, k), e) in steps_of(d, exp['spec'][1:]) if k is not None]
     kmax = max(ks) if ks else 0
@@ -807,7 +848,7 @@ def run_property(pid, P, rng, tier, seed, escalate=False, only_B=False):
             rep['witnesses'].append(f)
     if P.get('nest'):
         import nest
-        r = nest.run(tier)
+        r = nest.run(tier, which=('opts' if P['nest'] == 'opts' else 'nest'))
         rep['B_cases'] += r['cases']
         rep['b4_distinct'] = rep.get('b4_distinct', 0) + r['cases']
         rep['families']['B:nest'] = dict(r['dist'], failures=len(r['failures']), rejected=len(r['rejected']))
